@@ -279,8 +279,14 @@ func gen(r *sim.Rng, tier string) *sim.Case {
 		probe = 3
 		c.Programs = append(c.Programs, []sim.Op{{Op: "Len"}, {Op: "Drain"}})
 		c.Sched = enga.GenSched(r, 3, 8, probe, true)
-		c.Sched.SpinBurn = []int{150, 300, 600, 1100}[r.N(4)]
+		c.Sched.SpinBurn = []int{150, 300, 600, 1100, 1300, 2300}[r.N(6)]
+		if r.Pct(40) {
+			c.Sched.ClockJumpPct = []int{25, 60, 100}[r.N(3)]
+		}
 		c.Sched.MaxSteps = 40000
+		if c.Sched.SpinBurn > 2000 {
+			c.Sched.MaxSteps = 60000 // a waiter that consults the clock every thousand rounds gets to do it twice
+		}
 		c.Sched.Stalls = []sim.Stall{{T: r.N(2), At: 0, For: -1, AfterW: r.Range(1, 3)}}
 		if r.Bool() {
 			c.Sched.FreezeAt = -1
